@@ -317,6 +317,15 @@ fn parse_all(x: &str) -> Parsed {
     let (json, jv) = guarded(|| anda_kip::parse_json(x));
     let mut json_canon = String::new();
     if let Some(v) = &jv {
+        let d = json_depth_of(v);
+        if d as i64 > DOC_MAX_DEPTH {
+            problems.push(problem(
+                "accepted-nesting-beyond-limit",
+                &format!("parse_json returned a value nested {d} deep: brackets nested beyond the documented limit of {DOC_MAX_DEPTH} were parsed, not refused"),
+                &format!("refused, or a value nested at most {DOC_MAX_DEPTH} deep"),
+                &format!("ok, value nesting {d}"),
+            ));
+        }
         json_canon.push_str(&format!("{} ", json_depth_of(v)));
         canon_json(v, &mut json_canon);
     }
@@ -447,6 +456,18 @@ fn serde_checks(cmd: &Command, problems: &mut Vec<Value>) -> String {
         }
         Err(_) => problems.push(problem("serde-decode-panics", "serde_json::from_str of the encoded tree panicked", "ok", "panic")),
     }
+    if let Ok(Ok(val)) = catch_unwind(AssertUnwindSafe(|| serde_json::to_value(cmd))) {
+        let n = result_nesting(&val);
+        if n as i64 > DOC_MAX_DEPTH {
+            problems.push(problem(
+                "accepted-nesting-beyond-limit",
+                &format!("parse_kip returned a tree whose bracket-made nodes nest {n} deep: brackets nested beyond the documented limit of {DOC_MAX_DEPTH} were parsed, not refused"),
+                &format!("refused, or a tree nested at most {DOC_MAX_DEPTH} deep"),
+                &format!("ok, result nesting {n}"),
+            ));
+        }
+        drop_deep(val);
+    }
     // through serde_json::Value as well (no recursion limit on this path)
     match catch_unwind(AssertUnwindSafe(|| serde_json::to_value(cmd).and_then(serde_json::from_value::<Command>))) {
         Ok(Ok(back)) => {
@@ -458,6 +479,43 @@ fn serde_checks(cmd: &Command, problems: &mut Vec<Value>) -> String {
         Err(_) => problems.push(problem("serde-value-roundtrip-panics", "from_value(to_value(tree)) panicked", "ok", "panic")),
     }
     text
+}
+
+/// Nesting of the RESULT, counted on the encoded tree: every node kind that only a bracket pair in the
+/// source can produce (array / object values, object matchers, proposition tuples, NOT / OPTIONAL /
+/// UNION blocks, operand lists, function calls). Independent of any reading of comments or strings:
+/// whatever the text was, a tree nested deeper than the documented limit means brackets nested deeper
+/// than the limit were parsed.
+pub fn result_nesting(v: &Value) -> usize {
+    const BRACKET_NODES: &[&str] = &["Array", "Object", "Match", "Tuple", "Not", "Optional", "Union", "List", "Function"];
+    // explicit stack: the tree may be very deep
+    let mut best = 0usize;
+    let mut todo: Vec<(&Value, usize)> = vec![(v, 0)];
+    while let Some((x, d)) = todo.pop() {
+        best = best.max(d);
+        match x {
+            Value::Array(items) => todo.extend(items.iter().map(|i| (i, d))),
+            Value::Object(m) => {
+                for (k, i) in m {
+                    todo.push((i, if BRACKET_NODES.contains(&k.as_str()) { d + 1 } else { d }));
+                }
+            }
+            _ => {}
+        }
+    }
+    best
+}
+
+/// drops a possibly very deep Value without recursion
+fn drop_deep(v: Value) {
+    let mut todo = vec![v];
+    while let Some(x) = todo.pop() {
+        match x {
+            Value::Array(items) => todo.extend(items),
+            Value::Object(m) => todo.extend(m.into_iter().map(|(_, v)| v)),
+            _ => {}
+        }
+    }
 }
 
 fn clip(s: &str) -> String {
